@@ -75,8 +75,9 @@ class Report:
         ev = {"property_id": self.prop, "tier": self.tier, "seed": int(os.environ.get("VERIF_SEED", "0") or 0), "level": "model_checking", "coverage": cov,
               "assumptions": assumptions, "wall_s": round(time.time() - self.t0, 3), "violations": unknown,
               "build_s": float(os.environ.get("VERIF_BUILD_S", "0") or 0)}
-        os.makedirs(os.path.join(VERIF, "evidence"), exist_ok=True)
-        json.dump(ev, open(os.path.join(VERIF, "evidence", self.prop + ".json"), "w"), indent=1)
+        evdir = os.environ.get("HEXMC_EVIDENCE_DIR", os.path.join(VERIF, "evidence"))
+        os.makedirs(evdir, exist_ok=True)
+        json.dump(ev, open(os.path.join(evdir, self.prop + ".json"), "w"), indent=1)
         for l in lines:
             print(l)
         print("[%s] tier=%s evaluations=%d states=%d nontrivial=%d exhaustive=%s wall=%.1fs violations=%d" % (
